@@ -226,8 +226,8 @@ def _conv_tail(stmts, target, at):
                 nh = []
                 for h in st.handlers:
                     hb = [copy_node(x) for x in h.body] if isinstance(
-                        h.body[-1], ast.Raise) else _conv_tail(
-                            h.body, target, st)
+                        h.body[-1], ast.Raise) and not _has_return(
+                            h.body) else _conv_tail(h.body, target, st)
                     if hb is None:
                         return None
                     h2 = ast.ExceptHandler(type=copy_node(h.type),
@@ -276,8 +276,9 @@ def _conv_tail(stmts, target, at):
         if _has_return([st]):
             return None
         out.append(copy_node(st))
-    # fell off the end: implicit return None
-    out.extend(_assign_result(target, ast.Constant(value=None), at))
+    # fell off the end: implicit return None (nothing after a raise)
+    if not (stmts and isinstance(stmts[-1], ast.Raise)):
+        out.extend(_assign_result(target, ast.Constant(value=None), at))
     return out
 
 
